@@ -103,6 +103,18 @@ def run(cx):
     ev = pm.func("_eval_const")
     local_defs = {f.name for f in ast.walk(ev) if isinstance(f, ast.FunctionDef)}
     tables_ok = {}
+    # operator tables: inside the evaluator or hoisted to module level; every value a pure operator.* function (or the identity)
+    module_tables = {nm: v for nm, v in pm.consts.items() if isinstance(v, ast.Dict) and v.keys and all(isinstance(k, ast.Attribute) and (dotted(k) or "").startswith("ast.") for k in v.keys)
+                     and any(isinstance(x, ast.Name) and x.id == nm for x in ast.walk(ev)) and not all(isinstance(x, ast.Constant) for x in v.values)}
+
+    def _identity_lambda(v_):
+        return isinstance(v_, ast.Lambda) and len(v_.args.args) == 1 and isinstance(v_.body, ast.Name) and v_.body.id == v_.args.args[0].arg
+
+    for nm_, tbl_ in module_tables.items():
+        for k, v in zip(tbl_.keys, tbl_.values):
+            dn = dotted(v) or ""
+            okv = (dn.split(".")[0] in ("op", "operator") and dn.split(".")[-1] in SAFE_OPERATOR) or _identity_lambda(v)
+            r.check(okv, f"_eval_const/table[{dotted(k)}]->{dn or 'lambda'}", (pm, v), f"operator table {nm_} maps {dotted(k)} to {dn or norm(v)}, not a pure operator.* function")
     for n in ast.walk(ev):
         if isinstance(n, ast.Dict) and n.keys and all(isinstance(k, ast.Attribute) and dotted(k).startswith("ast.") for k in n.keys):
             for k, v in zip(n.keys, n.values):
@@ -125,6 +137,10 @@ def run(cx):
                     ok = True
                 elif f.id in ("func",):  # value looked up from the compare table, checked above
                     ok = True
+                else:
+                    # a local that only ever holds the result of a lookup in one of the checked tables
+                    ds_ = [x.value for x in ast.walk(ev) if isinstance(x, ast.Assign) and len(x.targets) == 1 and isinstance(x.targets[0], ast.Name) and x.targets[0].id == f.id]
+                    ok = bool(ds_) and all((isinstance(d_, ast.Subscript) and norm(d_.value) in module_tables) or (isinstance(d_, ast.Call) and isinstance(d_.func, ast.Attribute) and d_.func.attr == "get" and norm(d_.func.value) in set(module_tables) | {"ops"}) for d_ in ds_)
             elif isinstance(f, ast.Attribute):
                 dn = dotted(f) or ""
                 if dn in ("ast.parse",):
@@ -135,7 +151,7 @@ def run(cx):
                     ok = True
             elif isinstance(f, ast.Subscript):
                 base = norm(f.value)
-                ok = base in ("_SAFE_CASTS", "ops")
+                ok = base in ("_SAFE_CASTS", "ops") or base in module_tables
             r.check(ok, f"_eval_const/callee[{why}]", (pm, n), f"`{stmt_key(n)}`: callee {why} is not on the evaluator's allow-list")
         elif isinstance(n, ast.Call) is False and isinstance(n, ast.Attribute) and dotted(n) and dotted(n).startswith("ast.") and n.attr in FORBIDDEN_EV_ARMS:
             r.fail(f"_eval_const/arm[{n.attr}]", (pm, n), f"the evaluator dispatches on ast.{n.attr}: user attribute access / lambdas / comprehensions must not be evaluated")
@@ -477,6 +493,10 @@ def run(cx):
     if ab is None:
         raise AnalysisError("_eval_const._apply_bin vanished")
     tbl = [n for n in ast.walk(ab) if isinstance(n, ast.Dict) and n.keys and all(isinstance(k, ast.Attribute) for k in n.keys)]
+    if not tbl:
+        # hoisted to module level: the table the function subscripts with the operator class
+        used = [x.value.id for x in ast.walk(ab) if isinstance(x, ast.Subscript) and isinstance(x.value, ast.Name) and x.value.id in pm.consts and isinstance(pm.consts[x.value.id], ast.Dict)]
+        tbl = [pm.consts[u_] for u_ in used if pm.consts[u_].keys and all(isinstance(k, ast.Attribute) for k in pm.consts[u_].keys)]
     if not tbl:
         raise AnalysisError("_apply_bin operator table not found")
     keys = {k.attr: v for k, v in zip(tbl[0].keys, tbl[0].values)}
